@@ -65,6 +65,19 @@ BROKER_TEXT = {
 for _p, _t in BROKER_TEXT.items():
     CLAIMED[_p] = ("model_checking", BROKER_TECH, _t, BROKER_NOTE, "DESIGN.md section 5 " + _p)
 
+CLIENT_TECH = ("TLA+ specification Client.tla (event-granular: API threads, processor goroutine, die/cleanup without the API mutex, session, future store) bound to the real "
+               "client.Client by trace validation: scripted broker over a harness-owned link, wrapped session, a waiter per future; every trace checked by TLC (ClientTrace.tla)")
+CLIENT_NOTE = ("Trusted: TLC; the harness ordering argument (link + log atomic, session wrapper makes operation + log entry one step); scripted broker; rejected scenarios are re-driven "
+               "slowly; one known finding (die() vs API race) is accepted only under its named deviation. Bounded scenario families.")
+CLAIMED["C09"] = ("model_checking", CLIENT_TECH,
+    "API sequences against a scripted broker with drops before/after every client-side operation, session-operation failures, CONNACK variants and a gated die-vs-publish race: "
+    "QoS>=1 publishes are recorded before the first byte, kept until PUBACK/PUBCOMP, everything recorded is resent (dup) after resume, a future completes only after its acknowledgement was "
+    "processed and is cancelled when the client ends, Close/Disconnect return with every future resolved, accessors never panic.", CLIENT_NOTE, "DESIGN.md section 5 C09")
+CLAIMED["C10"] = ("model_checking", CLIENT_TECH,
+    "Broker scripts over PUBLISH(id,qos,dup)/PUBREL(known, unknown, repeated)/drop+resume with callback errors, both callback modes and failures at every acknowledgement: "
+    "one callback per QoS 2 handshake, PUBREC for every QoS 2 PUBLISH, PUBCOMP for every PUBREL (message released before it is written), PUBACK only after an accepting callback, "
+    "no acknowledgement and a closed connection after a refusing callback.", CLIENT_NOTE, "DESIGN.md section 5 C10")
+
 PENDING_REASON = "check not built yet in this round (planned, see DESIGN.md section 5)"
 
 
